@@ -16,7 +16,7 @@ def run(chk):
     chk.rule = ("5-tuples of grid points: exhaustive over {0,1}^3 corners (strided in quick), random on {0,1,2}^3, random of bit widths 4..52, "
                 "extremes near 0 / 2^52-1, exactly co-spherical lattice tuples and their +-1 perturbations, corners of the full cube; "
                 "non-trivial = orientation != 0; distinct by tuple")
-    lean_ok = chk.lean(['MVoro.Props.C10', 'MVoro.Proofs.Misc'], ['MVoro.Obl.InSphere', 'MVoro.Obl.Grid'], ['InSphere', 'Grid'])
+    lean_ok = chk.lean(['MVoro.Props.C10', 'MVoro.Proofs.Misc'], ['MVoro.Obl.InSphere', 'MVoro.Obl.Grid', 'MVoro.Obl.CellInit', 'MVoro.Obl.ClipVertex'], ['InSphere', 'Grid', 'CellInit', 'ClipVertex'])
     binary, blog = cargo_build('ibig,rayon')
     if binary is None:
         chk.violation('build', 'harness does not build against /repo', None)
